@@ -1043,6 +1043,9 @@ class Lifter:
     def np_mean(self, v):
         if isinstance(v, Arr) and v.ndim == 1:
             return total(v) / size_of(v.dims[0])
+        if isinstance(v, Arr) and v.ndim == 2:
+            # mean over all entries of a matrix
+            return total(v) / (size_of(v.dims[0]) * size_of(v.dims[1]))
         raise Unsupported("mean")
 
     def np_any(self, v):
